@@ -361,7 +361,12 @@ func (ir *ifdReader) ParseString(t Tag) string {
 		return string(trimNULBuffer(ir.buffer.buf[:t.Size()]))
 	}
 	if t.IsType(tag.TypeASCII) || t.IsType(tag.TypeASCIINoNul) {
-		buf, _ := ir.readTagValue()
+		buf, err := ir.readTagValue()
+		if err != nil {
+			// the value could not be read in full (it is longer than the read window, or the
+			// data ends early): no string is built from a partial window
+			return ""
+		}
 		return string(trimNULBuffer(buf)) // Trim function
 	}
 	if ir.logLevelWarn() {
